@@ -97,7 +97,7 @@ func (c13Prop) Gen(t *Tape, ph *PhaseCfg) Case {
 	if ph != nil && ph.P["multi"] == 1 {
 		// several typed containers at once (lists may share one default slice object of the host program):
 		// every one of them must hold exactly the parse of the tokens it was given
-		return genMulti(t)
+		return genMultiMid(t)
 	}
 	c := &c13Case{}
 	kind := ValKind(t.Draw(7))
